@@ -56,6 +56,12 @@ def excludeParents (g : Graph) (seen : List Nat) : Nat → List Nat → List Nat
     let r := (g.parents c).foldl (excludeParent seen) (ex, todo)
     excludeParents g seen fuel r.2 r.1
 
+/-- `n.commit_time >= self._last.commit_time`: "the next queued commit is not older than the last one returned,
+keep walking so that the excluded set can catch up".  The operator is generated from the source. -/
+def catchUpWith (ge : Bool) (n last : Int) : Bool := if ge then decide (n ≥ last) else decide (n > last)
+
+def catchUp (n last : Int) : Bool := catchUpWith Gen.walkCatchUpGe n last
+
 /-- `_step()`: result `(state, some commit)` when a commit is returned, `(state, none)` when the walk
 is finished; outer `none` = out of fuel -/
 def step (g : Graph) (since : Option Int) : Nat → QSt → Option (QSt × Option Nat)
@@ -79,7 +85,7 @@ def step (g : Graph) (since : Option Int) : Nat → QSt → Option (QSt × Optio
               let reset :=
                 if !s4.pq.isEmpty && s4.pq.all (fun e => ex.contains e.2) then
                   match s4.pq, s4.last with
-                  | e :: r, some l => decide ((best e r).1 ≥ g.ts l)
+                  | e :: r, some l => catchUp (best e r).1 (g.ts l)
                   | _, _ => false
                 else true
               some (s4, reset)
@@ -121,6 +127,81 @@ def queueOutput (g : Graph) (incl excl : List Nat) (since : Option Int) : Option
   | some (s, out) =>
     if excl.isEmpty then some (out, s.excluded)
     else some (out.filter (fun c => !s.excluded.contains c), s.excluded)
+
+/-! ## the same queue with the catch-up comparison as a parameter (`ge = true`: `>=`, `false`: `>`)
+
+Only for the witness in Props/C13.lean that the strict comparison yields an excluded commit on tied stamps; the
+theorems are about `step`/`drain`/`queueOutput` above, whose operator comes from the source. -/
+
+namespace Variant
+
+/-- `_step()`: result `(state, some commit)` when a commit is returned, `(state, none)` when the walk
+is finished; outer `none` = out of fuel -/
+def step (ge : Bool) (g : Graph) (since : Option Int) : Nat → QSt → Option (QSt × Option Nat)
+  | 0, _ => none
+  | fuel + 1, s =>
+    match popMax s.pq with
+    | none => some ({ s with finished := true }, none)
+    | some ((_, c), rest) =>
+      let s1 : QSt := { s with pq := rest, pqSet := s.pqSet.erase c }
+      if s1.done.contains c then step ge g since fuel s1
+      else
+        let s2 : QSt := { s1 with done := c :: s1.done }
+        let s3 := (g.parents c).foldl (push g) s2
+        let isEx := s3.excluded.contains c
+        let exRes : Option (QSt × Bool) :=
+          if isEx then
+            match excludeParents g s3.seen (g.n + 2) [c] s3.excluded with
+            | none => none
+            | some ex =>
+              let s4 : QSt := { s3 with excluded := ex }
+              let reset :=
+                if !s4.pq.isEmpty && s4.pq.all (fun e => ex.contains e.2) then
+                  match s4.pq, s4.last with
+                  | e :: r, some l => catchUpWith ge (best e r).1 (g.ts l)
+                  | _, _ => false
+                else true
+              some (s4, reset)
+          else some (s3, true)
+        match exRes with
+        | none => none
+        | some (s5, reset0) =>
+          let reset := match since with
+            | some m => if g.ts c < m then false else reset0
+            | none => reset0
+          if reset then
+            let s6 : QSt := { s5 with extraLeft := (Gen.walkMaxExtraCommits : Int) }
+            if !isEx then some ({ s6 with last := some c }, some c) else step ge g since fuel s6
+          else
+            let s6 : QSt := { s5 with extraLeft := s5.extraLeft - 1 }
+            if s6.extraLeft = 0 then some ({ s6 with finished := true }, none)
+            else if !isEx then some ({ s6 with last := some c }, some c) else step ge g since fuel s6
+
+/-- the queue's constructor: push every include, then every exclude -/
+def qInit (g : Graph) (incl excl : List Nat) : QSt :=
+  (incl ++ excl).foldl (push g)
+    { pq := [], pqSet := [], seen := [], done := [], excluded := excl.eraseDups, last := none,
+      extraLeft := (Gen.walkMaxExtraCommits : Int), finished := false }
+
+/-- repeated `_step()` until it reports the end; returns the final state and the commits in order -/
+def drain (ge : Bool) (g : Graph) (since : Option Int) : Nat → QSt → List Nat → Option (QSt × List Nat)
+  | 0, _, _ => none
+  | fuel + 1, s, acc =>
+    match step ge g since (g.n + 1) s with
+    | none => none
+    | some (s', none) => some (s', acc.reverse)
+    | some (s', some c) => drain ge g since fuel s' (c :: acc)
+
+/-- everything `next(queue)` yields, in order, and the final `excluded` set.  Buffered mode filters the
+buffered commits against the final `excluded` set; streaming mode has no excludes. -/
+def queueOutput (ge : Bool) (g : Graph) (incl excl : List Nat) (since : Option Int) : Option (List Nat × List Nat) :=
+  match drain ge g since (g.n + 2) (qInit g incl excl) [] with
+  | none => none
+  | some (s, out) =>
+    if excl.isEmpty then some (out, s.excluded)
+    else some (out.filter (fun c => !s.excluded.contains c), s.excluded)
+
+end Variant
 
 /-! ## `_topo_reorder` -/
 
